@@ -30,7 +30,7 @@ BUILD_CXX = {"fuzz": "clang++"}
 BUILD_STD = {"fuzz": "-std=gnu++20"}
 ASAN_OPTIONS = ("abort_on_error=1:detect_leaks=1:detect_stack_use_after_return=1:"
                 "allocator_may_return_null=1:malloc_context_size=12:print_legend=0:"
-                "max_allocation_size_mb=4096")
+                "max_allocation_size_mb=4096:quarantine_size_mb=64")
 UBSAN_OPTIONS = "print_stacktrace=1:halt_on_error=1"
 TSAN_OPTIONS = "halt_on_error=0:second_deadlock_stack=1:exitcode=66:report_signal_unsafe=0"
 LSAN_OPTIONS = "exitcode=23"
@@ -294,6 +294,7 @@ class PoolResult:
         self.inconclusive = []     # reasons
         self.hang_rechecks = 0
         self.wall = 0.0
+        self.notes = []            # things worth recording that do not affect the verdict
 
 
 def run_pool(binp, build_name, prop, tier, seed, nworkers, rundir, dbits, extra_args=(), scale=None,
@@ -411,8 +412,10 @@ def run_pool(binp, build_name, prop, tier, seed, nworkers, rundir, dbits, extra_
                 res.reports.append(json.load(open(pj)))
                 os.rename(pj, os.path.join(rundir, "w%d.done.%d.json" % (w, j["attempt"])))
                 continue
-            if rc == 97 or "HANG" in curtext.split("\n")[-2:]:
-                # CPU-time watchdog: re-run that single case once
+            killed = rc == -signal.SIGKILL and "Sanitizer" not in stderr
+            if rc == 97 or "HANG" in curtext.split("\n")[-2:] or killed:
+                # CPU-time watchdog - or a SIGKILL nobody in this process tree sends (the kernel's out-of-memory killer on a
+                # loaded machine): re-run that single case once, on its own; only a second death of the same kind is a verdict
                 res.hang_rechecks += 1
                 cmd = base_cmd(w) + ["--case", "%s:%d" % (phase, index)]
                 sub = os.path.join(rundir, "hang%d" % res.hang_rechecks)
@@ -423,7 +426,17 @@ def run_pool(binp, build_name, prop, tier, seed, nworkers, rundir, dbits, extra_
                     rc2 = r2.returncode
                 except subprocess.TimeoutExpired:
                     rc2 = 97
-                if rc2 == 97:
+                if killed and rc2 == -signal.SIGKILL:
+                    add_violation("signal:SIGKILL@%s" % phase, phase, index,
+                                  "case killed twice (second time running alone): memory exhaustion\n" + curtext[:3000])
+                elif killed and rc2 not in (0, 1):
+                    add_violation(classify_crash(r2.stderr.decode("utf-8", "replace") if rc2 != 97 else "", curtext, rc2, phase), phase, index, curtext[:3000])
+                elif killed and rc2 == 0:
+                    # the case ran to completion on its own with silent monitors: it has been executed; only the note remains
+                    res.notes.append("worker killed by SIGKILL (memory pressure) at %s:%d; the case was re-run alone and held" % (phase, index))
+                elif killed:
+                    res.inconclusive.append("worker killed by SIGKILL at %s:%d (re-run alone ended with exit %d)" % (phase, index, rc2))
+                elif rc2 == 97:
                     add_violation("hang:%s" % phase, phase, index,
                                   "case exceeded its CPU-time budget twice\n" + curtext[:3000])
                 else:
